@@ -95,7 +95,8 @@ class FakeS3:
                     self.log.append(("put-412", Key, None))
                     raise client_error("PreconditionFailed", "PutObject")
             if hasattr(Body, "read"):
-                Body = Body.read()
+                Body = Body.read()          # a stream handed to the client is CONSUMED by the upload, whether or not it then succeeds
+            self._h("before", "put-body-sent", Key, {"n": len(Body)})        # the upload can break after the body went out
             o = self._put(Key, Body)
             self.log.append(("put", Key, "cas" if (IfMatch or IfNoneMatch) else None))
         self._h("after", "put", Key, {})
